@@ -32,6 +32,12 @@ def run(R):
         for bb, t in eq:
             other = [call.origin(a) for a in t['args']]
             okh = any(term_contains(o, lambda x: x and x[0] == 'const' and x[1] == 'https') for o in other)
+        # .. or uri.scheme_str().is_some_and(|s| s == "https")
+        isa = [(bb, t) for bb, t in call.calls(name='is_some_and') if term_contains(call.origin(t['args'][0]), lambda x: is_call(x, name='scheme_str'))]
+        if not eq and len(isa) == 1:
+            f_ = opt_eq_form(tonic, call.origin({'cp': {'l': isa[0][1]['dest']['l']}}))
+            okh = f_ is not None and term_contains(f_[1], lambda x: x and x[0] == 'const' and x[1] == 'https')
+            eq = isa
         R.check(len(eq) == 1 and okh, 'C15.R1', 'is_https-definition', site(call), 'is_https = uri.scheme_str() == Some("https"): %r' % okh)
         # the future that establishes the connection: an async block of call(), or the coroutine of an async helper it instantiates
         inner = [c for c in family(tonic, call) if c.kind == 'coroutine']
@@ -43,7 +49,7 @@ def run(R):
         # the https flag by what it is (the scheme comparison made in call(), followed through the captures), not by its name
         def is_https_flag(t_):
             r_ = resolve_env(tonic, co, t_)
-            return term_contains(r_, lambda x: is_call(x, name='eq') and term_contains(x, lambda y: is_call(y, name='scheme_str')))
+            return term_contains(r_, lambda x: is_call(x) and x[3] in ('eq', 'is_some_and') and term_contains(x, lambda y: is_call(y, name='scheme_str')))
         tlsf = [f_['n'] for f_ in tonic.adt('channel::service::connector::Connector')['variants'][0]['fields'] if 'TlsConnector' in f_['ty']]
         sw = [bb for bb in sorted(co.live_blocks()) if co.term(bb)['k'] == 'switch' and is_https_flag(co.origin(co.term(bb)['on']))]
         if len(sw) != 1:
@@ -270,6 +276,12 @@ def run(R):
                         h2 = True
                     if want and payload:
                         h2 = True  # the payload only exists on the Some arm
+                elif is_call(c_, name='is_some_and') and opt_eq_form(tonic, c_) is not None:
+                    x_, k_ = opt_eq_form(tonic, c_)
+                    if is_call(strip_refs(x_), name='alpn_protocol') and is_h2(k_):
+                        seen_cmp = True   # alpn_protocol().is_some_and(|p| p == ALPN_H2): None does not match
+                        if val_true:
+                            h2 = True
                 elif u_[0] == 'discr' and is_call(strip_refs(u_[1]), name='alpn_protocol'):
                     pass
                 elif OPT[1] == 'bool' and field_names(u_)[-1:] == [OPT[0]] and val_true:
